@@ -223,6 +223,11 @@ def sig_layout (c : Cfg) (s : Sig) : SigLayout :=
   ⟨one_line_budget, tactic, params_in_block, multiline, ret_should_indent, closing,
    ret_should_indent && s.params.isEmpty⟩
 
+/-- The line of `fn` ends with `(`: parameters in a block, the forced line break of the visual style,
+or the closing parenthesis of an empty list moved down. -/
+def SigLayout.paren_break (c : Cfg) (l : SigLayout) : Bool :=
+  l.params_in_block || (c.indent_style = .visual && l.one_line_budget = 0) || l.closing_paren_overflow
+
 /-- The whole signature up to and excluding ` {` / `;` is one line. -/
 def sig_one_line (c : Cfg) (s : Sig) : Bool :=
   let l := sig_layout c s
